@@ -38,17 +38,45 @@ def _lambda_ir(lam: ast.Lambda, argsyms, env=None):
         raise Undecided(f"lambda takes {len(ps)} parameters")
     e = dict(env or {})
     e.update(dict(zip(ps, argsyms)))
-    return alg.ToIR(env=e)(lam.body)
+    used = {n.id for n in ast.walk(lam.body) if isinstance(n, ast.Name)}
+    for k, v in e.items():
+        if k in used and isinstance(v, tuple) and v and v[0] == "undecided":
+            raise Undecided(f"the lambda closes over `{k}`, whose definition is not a recognised annualisation factor")
+    return alg.ToIR(env={k: v for k, v in e.items() if not (isinstance(v, tuple) and v and v[0] == "undecided")})(lam.body)
 
 
-def _factor_env(f: ast.FunctionDef):
-    """`factor = self.frequency.value or 1` -> symbol a ; shift literal"""
+def _is_annualisation_factor(node, selfname="self", mod=None, depth=0) -> bool:
+    """`self.frequency.value [or 1]`, possibly behind a one-line private helper that is handed the series"""
+    src = unparse(node).replace(" ", "")
+    if src in (f"{selfname}.frequency.valueor1", f"{selfname}.frequency.value", f"int({selfname}.frequency.value)or1", f"int({selfname}.frequency)or1"):
+        return True
+    if isinstance(node, ast.Call) and mod is not None and depth < 2 and len(node.args) == 1 and not node.keywords and unparse(node.args[0]) == selfname:
+        name = dotted(node.func)
+        if name and mod.has(name):
+            g = mod._lookup(name)
+            if isinstance(g, ast.FunctionDef) and len(params(g)) == 1:
+                rets = [r for r in walk_no_nested(g) if isinstance(r, ast.Return)]
+                if len(rets) == 1 and rets[0].value is not None:
+                    return _is_annualisation_factor(rets[0].value, params(g)[0], mod, depth + 1)
+    if isinstance(node, ast.Call) and mod is not None and depth < 2 and not node.args and not node.keywords and isinstance(node.func, ast.Attribute) \
+            and unparse(node.func.value) == selfname:
+        for q, g in mod.functions():
+            if q.endswith("." + node.func.attr) and len(params(g)) == 1:
+                rets = [r for r in walk_no_nested(g) if isinstance(r, ast.Return)]
+                if len(rets) == 1 and rets[0].value is not None:
+                    return _is_annualisation_factor(rets[0].value, params(g)[0], mod, depth + 1)
+    return False
+
+
+def _factor_env(f: ast.FunctionDef, mod=None):
+    """locals of the method the lambda closes over: the annualisation factor -> symbol a; any other local -> not decidable"""
     env = {}
     for n in walk_no_nested(f):
         if isinstance(n, ast.Assign) and len(n.targets) == 1 and isinstance(n.targets[0], ast.Name):
-            src = unparse(n.value).replace(" ", "")
-            if src in ("self.frequency.valueor1", "self.frequency.value"):
+            if _is_annualisation_factor(n.value, "self", mod):
                 env[n.targets[0].id] = a
+            elif not (isinstance(n.value, ast.Constant) or (isinstance(n.value, ast.UnaryOp) and isinstance(n.value.operand, ast.Constant))):
+                env[n.targets[0].id] = ("undecided", n.targets[0].id)
     return env
 
 
@@ -76,7 +104,7 @@ def run(chk):
         if lam is None:
             raise AnalysisError(f"anchor vanished: temporal_change lambda in Inlay.{name}")
         try:
-            got = _lambda_ir(lam, [x, y], _factor_env(f))
+            got = _lambda_ir(lam, [x, y], _factor_env(f, m))
             change_ir[name] = got
             chk.ob("C13-R1", f"series._temporal.Inlay.{name}", alg.equal(got, want),
                    f"lambda = {alg.show_rat(alg.nf(got))}; documented = {alg.show_rat(alg.nf(want))}", m.loc(lam))
@@ -154,7 +182,12 @@ def run(chk):
             chk.undecided("C13-R3", f"series._temporal.Inlay.{name}", f"{len(stores)} stores to self.data")
             continue
         try:
-            env = _factor_env(f)
+            env = _factor_env(f, m)
+            used = {n.id for n in ast.walk(stores[0].value) if isinstance(n, ast.Name)}
+            und = [k for k, v in env.items() if k in used and isinstance(v, tuple) and v and v[0] == "undecided"]
+            if und:
+                raise Undecided(f"`{und[0]}` is not a recognised annualisation factor")
+            env = {k: v for k, v in env.items() if not (isinstance(v, tuple) and v and v[0] == "undecided")}
             conv = alg.ToIR(env=env, attr=lambda s: change_ir[B] if s == "self.data" else None)
             got = conv(stores[0].value)
             want = change_ir[A]
@@ -189,14 +222,25 @@ def run(chk):
     # ---------------- R5
     f = m.func("_catch_invalid_shift")
     chk.saw(m, "_catch_invalid_shift")
-    body = strip_docstring(f.body)
+    from .. import fin
     p = params(f)[0]
-    ok = False
-    if len(body) == 1 and isinstance(body[0], ast.If) and isinstance(body[0].body[0], ast.Raise):
-        t = unparse(body[0].test).replace(" ", "")
-        ok = t in (f"notisinstance({p},str)and(int({p})!={p}or{p}>=0)",)
-    chk.ob("C13-R5", "series._temporal._catch_invalid_shift", ok,
-           "raises iff not a string and (non-integer or >= 0)" if ok else f"guard is {unparse(body[0].test) if body else '?'}", m.loc(f))
+    bad = None
+    try:
+        for v in (-1, -3, -12, 0, 1, 2, -1.5, 1.5, -2.0, "yoy", "soy", "", True):
+            try:
+                fin.run_function(f, {p: v}, funcs={"isinstance": isinstance}, env={"str": str, "int": int, "float": float, "bool": bool})
+                raised = False
+            except fin.Raised:
+                raised = True
+            want = (not isinstance(v, str)) and (int(v) != v or v >= 0)
+            if raised != want:
+                bad = (v, raised, want)
+                break
+        chk.ob("C13-R5", "series._temporal._catch_invalid_shift", bad is None,
+               "raises iff the shift is not a string and is non-integer or >= 0 (13 values: negative / zero / positive integers, floats, keywords)"
+               if bad is None else f"shift={bad[0]!r}: {'raises' if bad[1] else 'accepted'} (documented: {'rejected' if bad[2] else 'accepted'})", m.loc(f))
+    except (fin.NotFinite, TypeError, ValueError) as ex:
+        chk.undecided("C13-R5", "series._temporal._catch_invalid_shift", f"not evaluable: {ex}", m.loc(f))
     for name, f in sorted(meths.items()):
         if not name.startswith("cum_"):
             continue
